@@ -1425,6 +1425,17 @@ impl<'input, T: Input> Scanner<'input, T> {
     }
 
     fn fetch_flow_collection_end(&mut self, tok: TokenType<'input>) -> ScanResult {
+        // The bracket has to match the innermost open collection. (The parser checks this on the
+        // token stream too, but there the synthetic tokens of an implicit single-pair mapping can
+        // pair up with a stray bracket: `[a: b}, {c: d ]`.)
+        if let Some((is_mapping, _)) = self.flow_collections.last() {
+            if *is_mapping != matches!(tok, TokenType::FlowMappingEnd) {
+                return Err(ScanError::new_str(
+                    self.mark,
+                    "closing bracket does not match the open flow collection",
+                ));
+            }
+        }
         self.remove_simple_key()?;
         self.decrease_flow_level();
 
